@@ -343,6 +343,18 @@ impl C03 {
                 "ioerr" => FrameRecipe::IoErr,
                 "raw" => FrameRecipe::Raw(unhex(p[1]).expect("hex")),
                 "auth" => FrameRecipe::Auth { key: p[1].parse().unwrap(), sig: p[2].into(), mutation: p[3].into() },
+                "replay" => {
+                    // an earlier session of the same server process: an honest client of `key`
+                    // answers that session's challenge; the attacker records the frame and
+                    // presents it in the session under test.
+                    let mut io0 = Io { km_secret: None, recipe: Some(FrameRecipe::Auth { key: p[1].parse().unwrap(), sig: "good".into(), mutation: "none".into() }), delivered: vec![], written: vec![], writes: 0, wfail: None, pending_fail: false };
+                    let rt0 = tokio::runtime::Builder::new_current_thread().build().unwrap();
+                    let _ = rt0.block_on(async { handshake::serverside(&mut io0, None).await.map(|_| ()) });
+                    match io0.delivered.first() {
+                        Some(Some(f)) => FrameRecipe::Raw(f.clone()),
+                        _ => FrameRecipe::Eof,
+                    }
+                }
                 _ => panic!("frame recipe"),
             }
         };
@@ -436,6 +448,12 @@ impl C03 {
         ));
 
         // ---- oracle (independent of the model) --------------------------------------------
+        if t[2].starts_with("replay:") {
+            if let Ok((_, Mechanism::SignedChallenge)) = &auth {
+                ex.violation("replayed-signature-accepted", "a ClientAuth frame recorded in an earlier session authenticated this session (challenge not fresh)");
+            }
+            ex.tags.push("replay".into());
+        }
         match &auth {
             Ok((k, m)) => {
                 let mech = if *m == Mechanism::SignedChallenge { "challenge" } else { "keymaterial" };
@@ -634,7 +652,8 @@ impl Prop for C03 {
                 }
                 k => format!("{k}:{key}:{}", rng.range(1, 2)),
             };
-            let frame = match rng.below(12) {
+            let frame = match rng.below(13) {
+                12 => format!("replay:{}", rng.below(4)),
                 0 => "eof".to_string(),
                 1 => "ioerr".to_string(),
                 2 => {
